@@ -403,6 +403,7 @@ impl Gen {
                 Step::CoreWorker {
                     key: self.next_core_worker - 1,
                     shape: shape(&mut self.rng),
+                    group: *self.rng.pick(&[0u32, 0, 0, 1, 2]),
                 }
             }
             4 => {
